@@ -1,2 +1,68 @@
--- driver stub (not built yet)
-def main : IO Unit := pure ()
+import QmcModel.Proto
+import QmcModel.Convert
+open Qmc Qmc.Proto
+
+/-
+C15 driver.
+  convert <edges> <Γ> <h> <nvars> <cutoff> <state> <slots>
+      → `P` | `ok <bonds> <vars> <offset generic> <offset ising> <cutoff> <state> <slots> <flags> <non_const_diags>`
+        bonds = `const:constdiag:at-table` joined by `!` (table: ins major, outs minor), vars joined by `.`/`!`,
+        flags = has_cluster_edges, breaks_ising_symmetry, should_do_cluster_update, loops, heatbath
+  lockstep[-h|-opts] <edges> <Γ> <h> <nvars> <cutoff> <β> <seed> <kpre> <kpost> <rvb> <hb> <observed>
+      → `<observation allowed by the trajectory theorem 0|1> <cluster gate> <energy difference>`
+edges = `a,b:J!a,b:J…`
+-/
+
+def parseEdges (s : String) : List (List Nat × Rat) :=
+  if s == "-" || s == "" then [] else
+  (s.splitOn "!").filterMap fun tok =>
+    match tok.splitOn ":" with
+    | [vs, j] => some (parseNats vs, parseRat j)
+    | _ => none
+
+def mkModel (edges gam h nv : String) : IsingModel :=
+  { edges := parseEdges edges, transverse := parseRat gam, longitudinal := parseRat h,
+    nvars := parseNat nv }
+
+def bondTok (i : Interaction) : String :=
+  let pats := patterns i.n
+  let table := pats.flatMap fun ins => pats.map fun outs =>
+    match i.atP ins outs with
+    | .ok v => showRat v
+    | _ => "E"
+  s!"{showBool i.isConstant}:{showBool i.isConstantDiag}:{String.intercalate "," table}"
+
+def joinOr (sep : String) (xs : List String) : String :=
+  if xs.isEmpty then "-" else String.intercalate sep xs
+
+def step (toks : List String) : String :=
+  match toks with
+  | ["convert", edges, gam, h, nv, cutoff, state, slots] =>
+    let g : IsingSampler :=
+      { model := mkModel edges gam h nv, state := parseBits state, cutoff := parseNat cutoff,
+        slots := parseSlots slots }
+    match intoQmc g with
+    | .ok q =>
+      let bonds := joinOr "!" (q.bonds.map bondTok)
+      let vars := joinOr "!" (q.bonds.map fun i => String.intercalate "." (i.vars.map toString))
+      let flags := String.join ([q.hasClusterEdges, q.breaksIsingSymmetry, q.shouldDoClusterUpdate,
+        q.doLoopUpdates, q.doHeatbath].map showBool)
+      s!"ok {bonds} {vars} {showRat q.offset} {showRat g.model.offset} {q.cutoff} {showBits q.state} {showSlots q.slots} {flags} {showNats q.nonConstDiags}"
+    | .err => "E"
+    | .panic => "P"
+  | [kind, edges, gam, h, nv, cutoff, _beta, _seed, _kpre, _kpost, rvb, hb, observed] =>
+    if !kind.startsWith "lockstep" then "bad-op" else
+    let g : IsingSampler :=
+      { model := mkModel edges gam h nv, state := [], cutoff := parseNat cutoff, slots := [],
+        runRvb := rvb == "1", heatbath := hb == "1" }
+    match intoQmc g with
+    | .ok q =>
+      let gate := q.shouldDoClusterUpdate
+      let applies := gate && !g.runRvb && !g.heatbath
+      let allowed := !applies || observed == "same"
+      let ediff := if observed == "same" then showApprox (g.energy 1 1 - q.energy 1 1) else "~0"
+      s!"{showBool allowed} {showBool gate} {ediff}"
+    | _ => "0 ? ?"
+  | _ => "bad-op"
+
+def main : IO Unit := run step
